@@ -771,6 +771,7 @@ class TorControlProtocol(LineOnlyReceiver):
             (d, cmd, cmd_arg) = self.command
 
             if self._when_disconnected.already_fired(d):
+                self.command = None
                 return
 
             self.defer = d
